@@ -149,7 +149,7 @@ func parseDebugFrameAck(b []byte) (f debugFrameAck, n int) {
 	})
 	// Ranges are parsed high to low; reverse ranges slice to order them low to high.
 	for i := 0; i < len(f.ranges)/2; i++ {
-		j := len(f.ranges) - 1
+		j := len(f.ranges) - 1 - i
 		f.ranges[i], f.ranges[j] = f.ranges[j], f.ranges[i]
 	}
 	return f, n
